@@ -20,7 +20,8 @@ CONSTANTS
   Paces = {"burst"}
   DevSpin = FALSE
   DevNoUnblock = FALSE
+  DevAliasFlush = FALSE
 SPECIFICATION USpec
-INVARIANTS UTypeOK UDatagrams UComplete UCompleteAny UEncoded UFlushed UBuf
+INVARIANTS UTypeOK UDatagrams UComplete UCompleteAny UEncoded UFlushed UMutex UBuf
 PROPERTIES UDelivMonotone UEventuallyFlushed UTermination
 CHECK_DEADLOCK FALSE
